@@ -54,6 +54,28 @@ def r6_every_node_visited(ctx, tt):
     loops = [w for w in loops if any(isinstance(c, ast.Call) and isinstance(c.func, ast.Attribute) and c.func.attr in ('get', 'pop', 'popleft')
                                      for c in ast.walk(w))]
     if not loops:
+        # a walk over the stage table instead of the tree: every node of every stage must be taken, one by one.  Pairing the nodes
+        # of a stage with another row by position (zip with the header row) silently drops the columns a split adds and pairs the
+        # columns right of a split with the wrong partner.
+        scope = [tt] + [g for g in _SCOPE if g is not tt]
+        stage_iters = []
+        for f in scope:
+            for n_ in walk_local(f.node):
+                gens = [(n_.target, n_.iter)] if isinstance(n_, ast.For) else \
+                    [(g.target, g.iter) for g in n_.generators] if isinstance(n_, (ast.ListComp, ast.GeneratorExp, ast.SetComp)) else []
+                for tg, it in gens:
+                    if '.stages' in src(it) and isinstance(tg, ast.Name):
+                        stage_iters.append((f, n_, tg.id))
+        if stage_iters:
+            for f, n_, stage_var in stage_iters:
+                zips = [c for c in ast.walk(n_) if isinstance(c, ast.Call) and F.is_name(c.func, 'zip')
+                        and any(F.is_name(a, stage_var) for a in c.args)]
+                ctx.check(not zips, 'R6', f'{f.module.relpath}:{n_.lineno}', tt.qualname, 'walk-pairs-nodes-by-position',
+                          f'the walk over the stage table takes every node of `{stage_var}`',
+                          f'`{src(zips[0])[:60]}` pairs the nodes of a stage with another row by position: zip stops at the shorter row, so '
+                          f'after a spine split (a row wider than the header row) the extra columns are never visited and the columns to '
+                          f'the right are judged by the wrong header - their notes keep the source pitch' if zips else '')
+            return
         ctx.note('R6', tt.loc, tt.qualname, 'no work-list loop: the traversal is delegated (judged by R5 / the scope rules)')
         return
     for w in loops:
